@@ -3,10 +3,13 @@
  (a) Routing.send_cemi: on every normal path exactly one RoutingIndication is sent, inside
      `async with self._flow_control.throttle()`, followed by exactly one local confirmation built from the
      same frame with code L_Data.con; RoutingIndication frames are built and sent nowhere else.
- (b) throttle(): [sleep(WAIT - elapsed) iff elapsed < WAIT] -> wait for ready -> yield -> stamp the send
-     time (table over elapsed cells); ROUTING_INDICATION_WAIT_TIME folds to 0.02.
- (c) the ready flag: cleared only by handle_routing_busy (always, first), set only in __init__ and in
-     _resume_sending after `sleep(wait_time_ms / 1000 + non-negative random extension)`.
+ (b) throttle(): [sleep(WAIT - elapsed) iff elapsed < WAIT] -> yield at a moment the ready flag is set -> stamp the
+     send time (table over elapsed cells x ready-flag scenarios, including "woken, but paused again before the waiter
+     ran": asyncio.Event.wait() does not look at the flag again); ROUTING_INDICATION_WAIT_TIME folds to 0.02.
+ (c) the ready flag: cleared only by handle_routing_busy (always, first), set only in __init__, cancel() and in
+     _resume_sending after sleeping the announced wait time and a non-negative random extension random*N*50ms whose
+     busy-frame count N is read after the wait time has been slept; whoever cancels the timer task starts a new one
+     or sets the flag on every path (a pause ends with its timer).
  (d) handle_routing_busy table over {pause running?} x {remaining vs announced wait}: a shorter or equal
      announcement keeps the running pause, a longer one (or none running) restarts the timer from now
      with the announced time, cancelling the previous timer task.
@@ -87,8 +90,16 @@ def throttle(chk: Check, repo: Repo) -> None:
     chk.ob("throttle-is-contextmanager", fi.site(), any("asynccontextmanager" in d for d in fi.decorators), "throttle is an asynccontextmanager", key="throttle-cm")
     cfg = CFG(fi.node)
     exc = ExcTable(repo)
-    for label, last in (("5 ms ago", 99.995), ("exactly 20 ms ago", 99.98), ("long ago", 50.0)):
+    # the ready flag as a scenario: its value before any wake-up, after the first, after the second, ... (asyncio.Event.wait
+    # returns when set() was called - not necessarily with the flag still set: handle_routing_busy may have cleared it
+    # again before the waiter runs).  The indication may only go out (the yield) at a moment the flag is set.
+    scenarios = (("not paused", (True,)), ("paused, woken when the pause ends", (False, True)), ("paused, woken, paused again before running", (False, False, True)))
+    for (label, last), (slabel, flags) in ((a_, b_) for a_ in (("5 ms ago", 99.995), ("exactly 20 ms ago", 99.98), ("long ago", 50.0)) for b_ in scenarios):
         box = {}
+
+        def flag_now(env):
+            k = sum(1 for t in env.get("trace", ()) if t == "WAIT_READY")
+            return flags[min(k, len(flags) - 1)]
 
         def cm(c, env):
             n = call_name(c)
@@ -99,16 +110,27 @@ def throttle(chk: Check, repo: Repo) -> None:
                 return [Outcome(f"SLEEP({round(v, 6) if isinstance(v, float) else v})", None)]
             if n == "self._ready.wait":
                 return [Outcome("WAIT_READY", None)]
+            if n == "self._ready.is_set":
+                return [Outcome(f"FLAG={flag_now(env)}", flag_now(env))]
             return None
 
         am = AbsMachine(cfg, exc, cm, hook_consts(repo, fi))
         box["am"] = am
-        paths = Explorer(cfg, repo, am.step).run(cfg.entry, [], {"#trace_yields": True, "self._last_sent_routing_indication_time": last})
-        got = {(tuple(p.env.get("trace", ())), p.env.get("self._last_sent_routing_indication_time"), p.end_kind) for p in paths}
+        paths = Explorer(cfg, repo, am.step, max_steps=120).run(cfg.entry, [], {"#trace_yields": True, "self._last_sent_routing_indication_time": last})
         elapsed = 100.0 - last
         pre = (f"SLEEP({round(0.02 - elapsed, 6)})",) if elapsed < 0.02 else ()
-        want = {(pre + ("WAIT_READY", "YIELD(None)"), 100.0, "exit")}
-        chk.ob("throttle-cell", fi.site(), got == want, f"last indication {label}: {sorted(map(str, got))}; reference {sorted(map(str, want))}", key=f"throttle|{label}" + ("" if got == want else f"|{sorted(map(str, got))}"))
+        ok = bool(paths)
+        detail = []
+        for p_ in paths:
+            tr = tuple(t for t in p_.env.get("trace", ()) if not t.startswith("FLAG="))
+            ys = [i for i, t in enumerate(tr) if t.startswith("YIELD")]
+            waits_before = sum(1 for t in tr[: ys[0]] if t == "WAIT_READY") if ys else 0
+            flag_at_yield = flags[min(waits_before, len(flags) - 1)] if ys else None
+            sleeps = tuple(t for t in tr if t.startswith("SLEEP"))
+            good = len(ys) == 1 and flag_at_yield is True and sleeps == pre and p_.end_kind == "exit" and p_.env.get("self._last_sent_routing_indication_time") == 100.0 and (not pre or tr.index(pre[0]) < ys[0])
+            ok &= good
+            detail.append(f"{tr} flag at yield={flag_at_yield} end={p_.end_kind}")
+        chk.ob("throttle-cell", fi.site(), ok, f"last indication {label}, {slabel}: {sorted(set(detail))}; required: {pre or 'no'} spacing sleep, one yield at a moment the ready flag is set, then the send time is stamped", key=f"throttle|{label}|{slabel}" + ("" if ok else f"|{sorted(set(detail))}"))
 
 
 def ready_flag(chk: Check, repo: Repo) -> None:
@@ -122,61 +144,95 @@ def ready_flag(chk: Check, repo: Repo) -> None:
                 sites.append((f, c, n.rsplit(".", 1)[1]))
     chk.floor("ready flag set/clear sites", len(sites), 3)
     for f, c, kind in sites:
-        ok = (kind == "clear" and f.qualname == "_RoutingFlowControl.handle_routing_busy") or (kind == "set" and f.qualname in ("_RoutingFlowControl.__init__", "_RoutingFlowControl._resume_sending"))
+        ok = (kind == "clear" and f.qualname == "_RoutingFlowControl.handle_routing_busy") or (kind == "set" and f.qualname in ("_RoutingFlowControl.__init__", "_RoutingFlowControl._resume_sending", "_RoutingFlowControl.cancel"))
         chk.ob("ready-flag-owner", f.site(c), ok, f"_ready.{kind}() in {f.qualname}", key=f"ready|{kind}|{f.qualname}")
     rs = repo.func(M, "_RoutingFlowControl._resume_sending")
     chk.unit(rs)
     cfg = CFG(rs.node)
-    exc = ExcTable(repo)
-
-    from ..astx import inline_locals
-
-    def cm(c, env):
-        n = call_name(c)
-        if n == "asyncio.sleep":
-            return [Outcome(f"SLEEP({ast.unparse(inline_locals(rs.node, c.args[0]))})", None)]  # locals inlined: the label does not depend on their names
-        if n == "self._ready.set":
-            return [Outcome("SET_READY", None)]
-        if n == "random.random":
-            return [Outcome(None, UNKNOWN)]
-        return None
-
-    am = AbsMachine(cfg, exc, cm, hook_consts(repo, rs))
-    paths = Explorer(cfg, repo, am.step, max_steps=200).run(cfg.entry, [], {"self._received_busy_frames": 0, "self._wait_time_ms": 100})
-    firsts = {tuple(p.env.get("trace", ())[:2]) for p in paths}
-    sleeps = [c for c in calls(rs.node) if call_name(c) == "asyncio.sleep"]
-    first_arg = inline_locals(rs.node, sleeps[0].args[0]) if sleeps else None
 
     def factors(e: ast.AST) -> list[ast.AST]:
         if isinstance(e, ast.BinOp) and isinstance(e.op, ast.Mult):
             return factors(e.left) + factors(e.right)
         return [e]
-    base_ok = ext_ok = False
+
+    def terms(e: ast.AST) -> list[ast.AST]:
+        if isinstance(e, ast.BinOp) and isinstance(e.op, ast.Add):
+            return terms(e.left) + terms(e.right)
+        return [e]
+    # the sleeps that precede ready.set() (all of them dominate it), with their arguments as values (reaching definitions)
+    setn = [n for n in cfg.nodes if n.kind == "stmt" and n.ast is not None and any(call_name(c) == "self._ready.set" for c in calls(n.ast))]
+    if len(setn) != 1:
+        raise AnalysisError("_resume_sending: expected one _ready.set()")
+    sleeps = []
+    for n in cfg.nodes:
+        if n.kind == "stmt" and n.ast is not None and n.id != setn[0].id and cfg.dominates(n.id, setn[0].id):
+            for c in calls(n.ast):
+                if call_name(c) == "asyncio.sleep" and len(c.args) == 1:
+                    sleeps.append((n, c.args[0], cfg.symbolic(n.id, c.args[0])))
+    all_terms = [(n, raw, t) for n, raw, sym in sleeps for t in terms(sym)]
+    base = [(n, t) for n, raw, t in all_terms if ast.unparse(t) == "self._wait_time_ms / 1000"]
+    ext = [(n, raw, t) for n, raw, t in all_terms if "self._received_busy_frames" in ast.unparse(t)]
+    other = [ast.unparse(t) for n, raw, t in all_terms if ast.unparse(t) != "self._wait_time_ms / 1000" and "self._received_busy_frames" not in ast.unparse(t)]
+    base_ok = len(base) == 1 and not other and not [n for n in cfg.nodes if n.kind == "stmt" and n.ast is not None and any(call_name(c) == "self._ready.set" for c in calls(n.ast)) and not sleeps]
+    chk.ob("resume-after-wait", rs.site(), base_ok, f"before ready.set() _resume_sending sleeps {[ast.unparse(sym) for _, _, sym in sleeps]}: the announced wait time once, plus the extension, nothing else ({other})", key="resume-after-wait")
+    ext_ok = False
     ext_txt = "?"
-    if isinstance(first_arg, ast.BinOp) and isinstance(first_arg.op, ast.Add):
-        for a, b in ((first_arg.left, first_arg.right), (first_arg.right, first_arg.left)):
-            if ast.unparse(a) == "self._wait_time_ms / 1000":
-                base_ok = True
-                ext_txt = ast.unparse(b)
-                fs = factors(b)
-                kinds_ = []
-                for f_ in fs:
-                    v = repo.fold(f_, rs.module, rs.cls)
-                    if isinstance(f_, ast.Call) and call_name(f_) == "random.random" and not f_.args:
-                        kinds_.append("random")
-                    elif ast.unparse(f_) == "self._received_busy_frames":
-                        kinds_.append("busy")
-                    elif isinstance(v, (int, float)) and not isinstance(v, bool) and v >= 0:
-                        kinds_.append("const")
-                    else:
-                        kinds_.append("?")
-                ext_ok = "?" not in kinds_ and kinds_.count("random") == 1 and kinds_.count("busy") == 1
-    want_first = f"SLEEP({ast.unparse(first_arg)})" if first_arg is not None else "?"
-    chk.ob("resume-after-wait", rs.site(), base_ok and firsts == {(want_first, "SET_READY")}, f"_resume_sending starts with {sorted(firsts)}; required sleep(wait_time_ms/1000 + extension) then ready.set()", key="resume-after-wait")
+    fresh = False
+    if len(ext) == 1 and base:
+        n_ext, raw, t = ext[0]
+        ext_txt = ast.unparse(t)
+        kinds_ = []
+        for f_ in factors(t):
+            v = repo.fold(f_, rs.module, rs.cls)
+            if isinstance(f_, ast.Call) and call_name(f_) == "random.random" and not f_.args:
+                kinds_.append("random")
+            elif ast.unparse(f_) == "self._received_busy_frames":
+                kinds_.append("busy")
+            elif isinstance(v, (int, float)) and not isinstance(v, bool) and v >= 0:
+                kinds_.append("const")
+            else:
+                kinds_.append("?")
+        ext_ok = "?" not in kinds_ and kinds_.count("random") == 1 and kinds_.count("busy") == 1
+        # where the busy-frame count is read for the extension: the sleep statement itself or the definitions of the
+        # locals its argument uses - every such read has to come after the announced wait time has been slept
+        rd = cfg.reaching_defs()
+        read_nodes: set[int] = set()
+        work = [(n_ext.id, raw)]
+        seen_defs: set[int] = set()
+        while work:
+            at, e = work.pop()
+            if "self._received_busy_frames" in ast.unparse(e):
+                direct = [x for x in ast.walk(e) if isinstance(x, ast.Attribute) and ast.unparse(x) == "self._received_busy_frames"]
+                if direct:
+                    read_nodes.add(at)
+            for nm in [x for x in ast.walk(e) if isinstance(x, ast.Name) and isinstance(x.ctx, ast.Load)]:
+                for d in rd[at].get(nm.id, ()):
+                    if d >= 0 and d not in seen_defs and isinstance(cfg.nodes[d].ast, (ast.Assign, ast.AnnAssign)) and cfg.nodes[d].ast.value is not None:
+                        seen_defs.add(d)
+                        work.append((d, cfg.nodes[d].ast.value))
+        base_node = base[0][0]
+        fresh = bool(read_nodes) and all(r != base_node.id and cfg.dominates(base_node.id, r) for r in read_nodes)
     chk.ob("extension-non-negative", rs.site(), ext_ok and repo.module_const(M, "BUSY_RANDOM_TIME_FACTOR") == 0.05, f"random extension = {ext_txt} (product of non-negative factors: one random.random(), the busy-frame count, constants; BUSY_RANDOM_TIME_FACTOR = 0.05)", key="extension")
+    chk.ob("extension-uses-the-count-at-the-end-of-the-wait", rs.site(), fresh, "the busy-frame count N of the extension random*N*50ms is read after the announced wait time has been slept - frames covered by the running pause are counted without restarting the timer, a count read when the timer starts misses them", key="extension|fresh")
+    # a pause ends with its timer: whoever cancels the timer task either starts a new one or releases the senders
+    for f in repo.all_functions():
+        if f.module.name != M or f.cls is None or f.cls.name != "_RoutingFlowControl":
+            continue
+        fc = CFG(f.node)
+        cancels = [n for n in fc.nodes if n.kind == "stmt" and n.ast is not None and any(call_name(c) == "self._timer_task.cancel" for c in calls(n.ast))]
+        if not cancels:
+            continue
+        chk.unit(f)
+        resume = [n.id for n in fc.nodes if n.kind == "stmt" and n.ast is not None and (any(call_name(c) == "self._ready.set" for c in calls(n.ast)) or (isinstance(n.ast, ast.Assign) and any(ast.unparse(t) == "self._timer_task" for t in n.ast.targets) and any(call_name(c) == "self._resume_sending" for c in calls(n.ast))))]
+        for cn in cancels:
+            ok = fc.all_paths_hit(cn.id, resume, ends=[fc.exit])
+            chk.ob("pause-ends-with-its-timer", f.site(cn.ast), ok, f"{f.qualname} cancels the timer task - the only code that sets the ready flag again - and on every path " + ("starts a new timer or sets the flag itself" if ok else "some path returns with the flag left cleared: parked and later senders wait forever"), key=f"timer-cancel|{f.qualname}")
     ws = [w for w in attr_writes(repo, "_received_busy_frames", include_mutators=False) if w.func.module.name == M]
-    ok = all((w.kind == "assign" and w.func.name == "__init__") or (w.kind == "augassign" and ((w.func.name == "handle_routing_busy" and isinstance(w.stmt.op, ast.Add)) or (w.func.name == "_resume_sending" and isinstance(w.stmt.op, ast.Sub)))) for w in ws)
-    chk.ob("busy-counter-writers", rs.site(), ok and len(ws) == 3, f"_received_busy_frames: {[(w.func.name, canon(w.stmt)) for w in ws]}", key="busy-counter")
+    def zero(w) -> bool:
+        return w.kind == "assign" and isinstance(getattr(w.stmt, "value", None), ast.Constant) and w.stmt.value.value == 0
+    ok = all((zero(w) and w.func.name in ("__init__", "cancel")) or (w.kind == "augassign" and ((w.func.name == "handle_routing_busy" and isinstance(w.stmt.op, ast.Add)) or (w.func.name == "_resume_sending" and isinstance(w.stmt.op, ast.Sub)))) for w in ws)
+    names = {w.func.name for w in ws}
+    chk.ob("busy-counter-writers", rs.site(), ok and {"__init__", "handle_routing_busy", "_resume_sending"} <= names, f"_received_busy_frames: {[(w.func.name, canon(w.stmt)) for w in ws]} (reset to 0 at construction / cancel, counted up by handle_routing_busy, faded out by _resume_sending)", key="busy-counter")
 
 
 def busy_table(chk: Check, repo: Repo) -> None:
